@@ -256,6 +256,19 @@ PROPS['C01'] = dict(
     not_decided=['whole-input totality', 'termination of float-driven loops', 'bezier buffer index safety', 're-encoding yields valid UTF-8'],
 )
 
+PROPS['C04'] = dict(
+    category='other',
+    technique='Verus contract on the extracted add_path_data control-point loop with the writer replaced by an emission log (rule R7): loop invariant over the number of `,` separators, unbounded in the number of control points',
+    level_text='proved (Verus, every control-point list of every length with a typed first point, every position): the slider path part written by the encoder contains exactly one `,` separator and it is the last path token, i.e. it matches the decoder grammar `type (| point)* ,` -- so a typed last control point can no longer produce `|L,x:y` which the decoder rejects. Only this part of C04 is claimed',
+    level_note='the rendered text (core::fmt) is dropped by R7: only the ORDER of emissions and the separator byte chosen by the code are kept; the tail of add_path_data (length, node sounds / banks) is cut from the unit (line count in evidence); section order, headers and acceptance of every other line kind need the rendered text and are not decided',
+    verus=[dict(unit='c04', tier='quick')], kani=[],
+    kani_functions=[],
+    explanation='see level_text',
+    trusted_base=COMMON_TRUST + ['R7: writer -> emission log; write!/write_all -> emit(token)', 'R6: position arithmetic / int-cast comparison / Option<PathType> inequality abstracted as uninterpreted functions'],
+    assumptions=['first control point is typed and the list is non-empty (established by the decoder: obligation ho_path_*)'],
+    not_decided=['every line kind other than the slider path', 'section order and headers', 'text rendering of numbers'],
+)
+
 NOT_APPLICABLE = {
     'C02': 'whole-text round trip through core::fmt float printing and dec2flt: no contract on one function links encode output to decode input, and neither verifier executes fmt/parse on symbolic values; the expressible codec-pair lemmas are decided under C11/C13/C14/C04',
     'C03': 'same as C02 (edited values travel through write! and str::parse); the first-colon rule it singles out is a contract on KeyValue::parse decided under C11',
